@@ -4,7 +4,7 @@
    leaves "sample<TAB>gene<TAB><NL>"); [g_shipped] = behaviour of the shipped tree.  [repaired v] = the three switches are off.
    A supplied structure has no neutral region in the implementation (profile "user_provided"), so the clauses below are
    stated for every evidence record, whatever its structure source. *)
-From Aldy Require Import Base Consts Guards GuardsProofs Consts_here Consts_wf.
+From Aldy Require Import Base Consts Guards GuardsProofs Consts_here Consts_wf Exprs_guard Tied_guard Consts_here.
 Open Scope Z_scope.
 
 Theorem C19_consts_here_wf : consts_wf here = true.
@@ -119,3 +119,40 @@ Example C19_pseudogene_only_proceeds : guard here g_shipped ev_pseudo_only = Pro
 Proof. exact pseudo_only_proceeds. Qed.
 Example C19_fixed_is_repaired : repaired g_fixed.
 Proof. exact fixed_repaired. Qed.
+
+(* ================================================================= tie to the current source tree
+   The guard expressions below are regenerated from /repo's Python AST on every run (harness/gen_exprs.py -> gen/Exprs_guard.v);
+   each theorem says that the model's definition IS that expression.  A change of a guard in the code breaks the obligation even
+   when no sampled input distinguishes old and new behaviour. *)
+Theorem C19_tie_avg_guard : forall c v ev,
+  avg_guard c v ev =
+  let applies := match ev_neutral ev with Some _ => true | None => negb (needs_neutral v) end in
+  if applies && guard_avg (avg_cov c (ev_sites ev)) (ev_min_avg ev)
+  then Some (Error LowAverage (line_of (ev_simple ev) true true)) else None.
+Proof. exact guard_avg_tied. Qed.
+Goal True. idtac "ASSUME C19_tie_avg_guard". Abort.
+Print Assumptions C19_tie_avg_guard.
+
+Theorem C19_tie_avg_cov : forall sites, avg_cov here sites = guard_avg_cov (inZ (zsum sites)) (inZ (Z.of_nat (length sites))).
+Proof. exact guard_avg_cov_tied. Qed.
+Goal True. idtac "ASSUME C19_tie_avg_cov". Abort.
+Print Assumptions C19_tie_avg_cov.
+
+Theorem C19_tie_neutral_floor : forall x, Qltb x (c_neutral_floor here) = guard_neutral_thin x.
+Proof. exact guard_neutral_thin_tied. Qed.
+Goal True. idtac "ASSUME C19_tie_neutral_floor". Abort.
+Print Assumptions C19_tie_neutral_floor.
+
+Theorem C19_tie_diploid_avg : forall total s e, e <> s ->
+  (guard_dip_avg (inZ total) (inZ s) (inZ e) == inZ total / inZ (Z.abs (e - s)))%Q.
+Proof. exact guard_dip_avg_tied. Qed.
+Goal True. idtac "ASSUME C19_tie_diploid_avg". Abort.
+Print Assumptions C19_tie_diploid_avg.
+
+Theorem C19_tie_cn_low_depth : forall v ev n, ev_struct ev = Estimated -> ev_neutral ev = Some n ->
+  cn_guard v ev =
+  if guard_cn_low (total_cov (ratio ev n) (ev_regions ev)) (inZ (ev_cn_min ev))
+  then Error CnLowDepth (line_of (ev_simple ev) true (negb (cn_unterminated v))) else Proceed.
+Proof. exact guard_cn_low_tied. Qed.
+Goal True. idtac "ASSUME C19_tie_cn_low_depth". Abort.
+Print Assumptions C19_tie_cn_low_depth.
